@@ -87,7 +87,7 @@ def bad_sargs(rng):
     if k == 4: return ('list', [('member', 'RED'), ('bad', None)])
     if k == 5: return ('list', [('member', 'RED'), ('selfref',)])
     if k == 6: return ('str', '[')
-    if k == 7: return ('str', rng.choice(['', ';;']))
+    if k == 7: return rng.choice([('str', ''), ('str', ';;'), ('str', ';'), ('list', [('str', '')]), ('list', [('list', [])]), ('tuple', [('str', ''), ('list', [])])])
     if k == 8: return ('int', 0)
     if k == 9: return ('list', [])
     if k == 10: return ('str', rng.choice(['-1', 'rgb(ff,0,0)', 'red;nope', 'colour256()', 'x1']))
@@ -164,7 +164,7 @@ class Runner:
                     elif q < 0.86: ps.append(rng.choice(['38', '48;5', '58;2;1', '38;7', '38;2;1;2']))
                     elif q < 0.92: ps.append(str(rng.choice([77, 256, 1000, 56, 60])))
                     elif q < 0.96: ps.append(rng.choice([' 1', '1 ', '01', '031']))
-                    else: ps.append(rng.choice(['+1', 'x', '1:2', '?25', '-1', '1_0']))
+                    else: ps.append(rng.choice(['+1', 'x', '1:2', '?25', '-1', '1_0', '\u00b2', '\u2460']))
                 out += '\x1b[' + ';'.join(ps) + 'm'
             elif r < 0.85:
                 out += rng.choice(['\x1b[2J', '\x1b[1;2H', '\x1b[', '\x1b[1;3', '\x1b', '\x1b[?25l', '\x1b[3~', '\x1b[15~', '\x9b1m', '\x1b[1M'])
@@ -338,6 +338,15 @@ class Runner:
                 return [('C09', 'error_atomic', 'receiver broken by a failed call: %r' % (e,))]
         return []
 
+    def own_lists_distinct(self, x, what):
+        """the start and stop lists of one value are separate objects (two markers sharing a list: a later
+        edit of one shows up at the other)"""
+        ls = [l for p in x._fmts.values() for l in (p.add, p.rem)]
+        if len(set(id(l) for l in ls)) != len(ls) or len(set(id(p) for p in x._fmts.values())) != len(x._fmts):
+            return [('C08', 'frame', 'after %s two markers of one value share a list or a point object' % what),
+                    ('C09', 'self_check', 'after %s two markers of one value share a list or a point object' % what)]
+        return []
+
     def health(self, x, what):
         """C09: every reachable value passes the self-check and can be queried/rendered/sliced"""
         viol = []
@@ -355,6 +364,7 @@ class Runner:
             viol.append(('C09', 'wf_keys', '%s: marker at %d beyond length %d' % (what, ks[-1], n)))
         if (x + 'z').ansi_settings_at(n):
             viol.append(('C09', 'wf_closed', '%s: style stays open past the end' % what))
+        viol += self.own_lists_distinct(x, what)
         return viol
 
     # ----------------------------------------------------------------- constructors
@@ -380,6 +390,15 @@ class Runner:
             # parsing a str never fails: what is not understood is kept as text or thrown out
             viol.append(('C02', 'parse_total', 'AnsiString(%r) raises %r' % (s, out[1])))
             viol.append(('C09', 'parse_total', 'AnsiString(%r) raises %r' % (s, out[1])))
+        if out[0] == 'ok' and not sargs and self.live and rng.random() < 0.25:
+            # the public re-parse on an object that already holds text and formatting: same as a fresh parse
+            old = self.pick().copy()
+            r2 = self.call(lambda: (old.set_ansi_str(s), old)[1])
+            fresh = out[1]
+            tt = lambda v: {k: ([str(q) for q in p_.add], [str(q) for q in p_.rem]) for k, p_ in v._fmts.items()}
+            if r2[0] != 'ok' or r2[1]._s != fresh._s or tt(r2[1]) != tt(fresh) or str(r2[1]) != str(fresh):
+                viol.append(('C02', 'set_ansi_str_fresh', 'set_ansi_str(%r) on an object that already held formatting differs from AnsiString(%r): %r vs %r' % (
+                    s, s, str(r2[1]) if r2[0] == 'ok' else r2[1], str(fresh))))
         if out[0] == 'ok':
             x = out[1]
             if not sargs:
@@ -523,6 +542,9 @@ class Runner:
         if s >= e or s >= n:
             if not pre.same_as(O.Snap(x)):
                 viol.append(('C06', 'apply_noop', 'empty range changed the value'))
+        if a[0] == 'str' and a[1].strip(';') == '' or (a[0] in ('list', 'tuple') and all(q[0] == 'str' and q[1].strip(';') == '' or q[0] in ('list', 'tuple') and not q[1] for q in a[1])):
+            if not pre.same_as(O.Snap(x)):
+                viol.append(('C06', 'apply_noop', 'settings %r name nothing, yet the value changed: table %r -> %r' % (a, pre.table, O.table(x))))
         return viol
 
     def op_remove(self):
@@ -666,7 +688,7 @@ class Runner:
         rng = self.rng
         x = self.pick()
         n = len(x._s)
-        i = rng.choice([0, -1, n - 1, -n, n, -n - 1, rng.randint(-n - 1, n + 1)])
+        i = rng.choice([0, -1, n - 1, -n, n, -n - 1, rng.randint(-n - 1, n + 1), -n - 2, -2 * n, -2 * n - 1, 2 * n])
         ids = P.InIds()
         inp = self._inp = P.line('index', P.e_astr(x, ids), P.e_int(i))
         pre = O.Snap(x, with_render=False)
@@ -676,6 +698,7 @@ class Runner:
         valid = -n <= i < n
         if valid != (out[0] == 'ok'):
             viol.append(('C04', 'getitem_int_range', 'i=%d n=%d outcome=%s' % (i, n, out[0])))
+            viol.append(('C09', 'index_outcome', 'an integer index outside -len..len-1 raises IndexError, inside it succeeds: i=%d n=%d outcome=%s' % (i, n, out[0])))
         if out[0] == 'ok':
             y = out[1]
             j = i if i >= 0 else n + i
@@ -712,6 +735,8 @@ class Runner:
             self.frozen.append((t, O.Snap(t._s)))                  # operands are arguments: they must not change
             del self.frozen[:-4]
             return ('S', t)
+        if self.rng.random() < 0.25:
+            return ('s', self.rng.choice(['WARN \x1b[33m', 'x\x1b[3', '1mred?', '\x1b[1m', 'a\x1b[0m', '\x1b', '[31mz', self.text(0, 4, esc=True)]))
         return ('s', self.text(0, 4))
 
     def as_astr(self, kv):
@@ -750,6 +775,18 @@ class Runner:
                 if rng.random() < 0.4:
                     b = b + src[2:3]
             kv = ('A', b)
+        elif rng.random() < 0.12:
+            # directed: the receiver has been rendered (whatever it remembers about itself is settled), then
+            # grows in place by a value with a verbatim multi-code setting that ends while another goes on;
+            # the value is rendered again right after (history step)
+            a.to_str(); a.is_formatting_parsable()
+            t = self.text(2, 5)
+            b = self.A(t, rng.choice(['underline', 'bg_blue', 'italic']))
+            b.apply_formatting(rng.choice(['[1;31', '[1;32', '[4;34', '[0']), 0, rng.randint(1, len(t) - 1))
+            self.do_concat(a, ('A', b), True, None, True)
+            if not self.tainted:
+                self.do_tostr(a, None, True, False, True)
+            return
         else:
             kv = self.operand()
         split_src = getattr(self, '_split_src', None)
@@ -872,7 +909,11 @@ class Runner:
         out, fv = self.framed([x] if inplace else [], lambda: self.call(fn))
         self.count(kind, out)
         viol = self.c09(out, kind, repr((w, fill, ext))) + fv + self.after_error(x, pre, out)
-        if out[0] == 'ok':
+        if kind != 'zfill' and len(fill) != 1 and not (out[0] == 'err' and isinstance(out[1], ValueError)):
+            # the documented contract of the fill character, whatever the width (str raises TypeError here)
+            viol.append(('C12', 'pad_fillchar', '%s(%r, %r): a fill string that is not one character must raise ValueError, got %s' % (kind, w, fill, out[0])))
+            viol.append(('C09', 'pad_outcome', '%s(%r, %r): a fill string that is not one character must raise ValueError, got %s' % (kind, w, fill, out[0])))
+        elif out[0] == 'ok':
             y = out[1]
             if inplace and y is not x:
                 viol.append(('C08', 'inplace_returns_self', kind))
@@ -1262,6 +1303,10 @@ class Runner:
                         viol += self.piece(pre, y, w, off, 'C10', kind + '_text')
                 for y in ys:
                     viol += self.health(y, kind)
+        if out[0] == 'ok' and len(set(id(y) for y in out[1])) != len(out[1]):
+            viol.append(('C08', 'result_is_source', '%s: two of the returned pieces are one and the same object' % desc))
+        if out[0] == 'ok' and any(y is x for y in out[1]):
+            viol.append(('C08', 'result_is_source', '%s: a returned piece is the receiver itself' % desc))
         if out[0] == 'ok' and want is None and kind in ('split', 'rsplit'):
             viol.append(('C09', 'error_class', 'str raises ValueError for %s' % desc))
         if out[0] == 'ok' and rng.random() < 0.3 and out[1]:
@@ -1612,6 +1657,9 @@ class Runner:
                     return [('C13', 'ansistr_op_eq', what + ': rendering differs')]
                 if str.__str__(r_s) != str(r_s._s) or '%s' % r_s != str(r_s._s):
                     return [('C13', 'ansistr_payload', what)]
+                e_s, e_a = self.call(lambda: str(r_s + 'xy')), self.call(lambda: str(r_a + 'xy'))
+                if e_s != e_a and not (e_s[0] == 'err' and e_a[0] == 'err'):
+                    return [('C13', 'ansistr_op_eq', what + ": the two results differ once 'xy' is appended: %r vs %r" % (e_s[1], e_a[1]))]
                 return []
             if r_s != r_a:
                 return [('C13', 'ansistr_op_eq', '%s: %r vs %r' % (what, r_s, r_a))]
@@ -1683,6 +1731,8 @@ class Runner:
             ('count', (pat,), {}), ('find', (pat,), {}), ('endswith', (pat,), {}), ('__len__', (), {}), ('__contains__', (pat,), {}),
             ('rfind', (pat, st), {}), ('index', (x._s[:1],), {}), ('rindex', (x._s[-1:], 0, None), {}), ('count', (pat, st, en), {}),
             ('isalnum', (), {}), ('isalpha', (), {}), ('isascii', (), {}), ('isdecimal', (), {}), ('isdigit', (), {}),
+            ('__contains__', ('\x1b[1m' + pat + '\x1b[m',), {}), ('center', (0, 'xy'), {}), ('ljust', (n, ''), {}), ('rjust', (n - 1, 'ab'), {}),
+            ('center', (n + 1, '*'), {}), ('center', (n + 2, '-'), {}), ('endswith', ((pat, 'b'), st, en), {}),
             ('isidentifier', (), {}), ('islower', (), {}), ('isnumeric', (), {}), ('isprintable', (), {}), ('isspace', (), {}),
             ('istitle', (), {}), ('isupper', (), {}), ('encode', (), {}), ('__contains__', (other[1],), {}),
         ]
